@@ -78,7 +78,7 @@ class Conn(object):
     self.s2c_written += len(data)
     if label is not None:
       self.marks.append((self.s2c_written, label))
-    self.net.env.emit('srv.write', conn=self.id, n=len(data), label=label)
+    self.net.env.emit('srv.write', conn=self.id, n=len(data), label=label, end=self.s2c_written)
     pieces = []
     if chunks:
       p = 0
